@@ -377,6 +377,7 @@ class UserFcn:
                     self.expr.__closure__,
                     refs,
                     self.name,
+                    self.expr.__kwdefaults__,
                 ),
             )
 
@@ -467,11 +468,13 @@ def deserializeString(cls, expr, name):
     return out
 
 
-def deserializeFunction(cls, __code__, __name__, __defaults__, __closure__, refs, name):
+def deserializeFunction(cls, __code__, __name__, __defaults__, __closure__, refs, name, __kwdefaults__=None):
     """Used by Pickle to reconstruct a function-based histogrammar.util.UserFcn from Pickle data."""
     out = cls.__new__(cls)
     g = dict(globals(), **refs)
     out.expr = types.FunctionType(marshal.loads(__code__), g, __name__, __defaults__, __closure__)
+    if __kwdefaults__:
+        out.expr.__kwdefaults__ = dict(__kwdefaults__)
     out.name = name
     return out
 
